@@ -5,9 +5,10 @@ the checks report as a broken obligation):
 
 1. PIN the statement shape of every region of signature.py that the hand
    models Binder/Bind.v and Binder/SigAssign.v mirror line by line:
-       Signature.validate, Signature.bind_arguments, preprocess_args,
-       _preprocess_kwargs_kv_pairs, Signature.can_assign,
-       can_assign_var_positional, can_assign_var_keyword.
+       Signature.validate, preprocess_args, _preprocess_kwargs_kv_pairs,
+       Signature.can_assign, can_assign_var_positional, can_assign_var_keyword
+   (Signature.bind_arguments is no longer pinned: its initialisation, its five
+   per-kind arms and its final checks are translated, see 2).
    The region's AST is normalised (docstrings dropped; the message arguments
    of show_call_error / on_error / CanAssignError / InvalidSignature and
    `message = ...` assignments replaced by a placeholder, so that wording may
@@ -17,11 +18,16 @@ the checks report as a broken obligation):
    the first differing source line.  (`python binder.py --update REPO`
    re-records the digests after the model has been brought up to date.)
 
-2. TRANSLATE two regions into Gallina, so that theorems are re-checked
-   against what the source says now:
+2. TRANSLATE into Gallina, so that theorems are re-checked against what the
+   source says now (a behaviour-preserving refactor re-proves):
+     * the five per-kind arms of the loop of bind_arguments, by symbolic
+       execution of their statements over the tracked variables
+         -> gen_step : actuals -> gstate -> param -> option (gstate * position)
+       (obligation Proofs/BinderGen.v: gen_step a (core st) p = step_core a st p),
+       together with a check of the initial values of the tracked variables;
      * the four checks after the loop of bind_arguments
-         -> gen_finish : actuals -> bstate -> bool
-       (obligation Proofs/BinderGen.v: gen_finish = Bind.finish_with eka);
+         -> gen_finish : actuals -> gstate -> bool
+       (obligation: gen_finish a (core st) = Bind.finish_with eka a st);
      * the "takes extra (required) parameter" loop after the comparison loop
        of Signature.can_assign
          -> gen_extra_required_ok : cstate -> param -> bool
@@ -52,7 +58,6 @@ def _fail(node, why):
 
 REGIONS = [
     ("Signature", "validate"),
-    ("Signature", "bind_arguments"),
     ("Signature", "can_assign"),
     (None, "preprocess_args"),
     (None, "_preprocess_kwargs_kv_pairs"),
@@ -140,11 +145,11 @@ def finish_expr(e):
     if isinstance(e, ast.UnaryOp) and isinstance(e.op, ast.Not):
         return f"(negb {finish_expr(e.operand)})"
     if _is_name(e, "star_args_consumed"):
-        return "(sac st)"
+        return "(g_sac g)"
     if _is_name(e, "star_kwargs_consumed"):
-        return "(skc st)"
+        return "(g_skc g)"
     if _is_name(e, "extra_keywords_allowed"):
-        return "(eka st)"
+        return "(g_eka g)"
     if _attr(e, "actual_args", "star_args"):
         return "(star_args a)"
     if _attr(e, "actual_args", "star_kwargs"):
@@ -161,7 +166,7 @@ def finish_expr(e):
         and len(e.comparators[0].args) == 1
         and _attr(e.comparators[0].args[0], "actual_args", "positionals")
     ):
-        return "(negb (pidx st =? length (positionals a)))"
+        return "(negb (g_pidx g =? length (positionals a)))"
     _fail(e, "unsupported expression in the final checks of bind_arguments")
 
 
@@ -194,7 +199,7 @@ def translate_finish(fn):
                 _fail(asg, "extra_kwargs is not `keywords - keywords_consumed`")
             if not _is_name(inner.test, "extra_kwargs") or inner.orelse or not _ends_with_return_none(inner.body):
                 _fail(inner, "unexpected-keyword check does not reject")
-            conj.append(f"negb ({finish_expr(st.test)} && has_extra_kw a st)")
+            conj.append(f"negb ({finish_expr(st.test)} && negb (is_nil (unconsumed a (g_kc g))))")
         else:
             if not _ends_with_return_none(st.body):
                 _fail(st, "final check does not end with `return None`")
@@ -202,7 +207,7 @@ def translate_finish(fn):
     # the fifth check (ParamSpec) reports but does not reject
     if _ends_with_return_none(tail[4].body):
         _fail(tail[4], "the ParamSpec check now rejects (outside the model)")
-    return "Definition gen_finish (a : actuals) (st : bstate) : bool :=\n  " + "\n  && ".join(conj) + ".\n"
+    return "Definition gen_finish (a : actuals) (g : gstate) : bool :=\n  " + "\n  && ".join(conj) + ".\n"
 
 
 KIND = {"POSITIONAL_ONLY": "PO", "POSITIONAL_OR_KEYWORD": "POK", "VAR_POSITIONAL": "VP", "KEYWORD_ONLY": "KO", "VAR_KEYWORD": "VK"}
@@ -288,6 +293,276 @@ def translate_extra_required(fn):
     return "Definition gen_extra_required_ok (st : cstate) (q : param) : bool :=\n  " + chain(loop.body[0]) + ".\n"
 
 
+
+# ---------------------------------------------------------------------------
+# symbolic execution of the per-kind arms of the loop of bind_arguments
+#
+# An arm is executed statement by statement over a symbolic environment
+#   pidx kc sac skc eka : Gallina expressions of the tracked variables
+#   pos                 : Position bound for the current parameter (or None)
+#   locals              : position, definitely_provided, counts of the local
+#                         lists `positionals` / dict `items`
+# and produces a Gallina term of type option (gstate * position): `if` trees
+# whose leaves are `None` (the arm returned None) or `Some (state, position)`.
+# Statements that only build Values or messages are skipped; anything else
+# that is not understood aborts the translation.
+
+FALSE_TESTS = {
+    "positional_index in actual_args.pos_or_keyword_params",
+    "param.name in actual_args.pos_or_keyword_params",
+    "actual_args.ellipsis",
+}
+VALUE_LOCALS = {"composite", "value", "message", "star_args_value", "star_kwargs_value", "value_value"}
+POSITION_CONSTS = {"ARGS": "Args", "KWARGS": "Kwargs", "DEFAULT": "Default", "UNKNOWN": "Unknown"}
+FLAGS = {"star_args_consumed": "sac", "star_kwargs_consumed": "skc", "extra_keywords_allowed": "eka"}
+WHILE_TEMPLATE = "while positional_index < len(actual_args.positionals):\n    positionals.append(actual_args.positionals[positional_index][1].value)\n    positional_index += 1"
+FOR_TEMPLATE = "for key, (definitely_provided, composite) in actual_args.keywords.items():\n    if key in keywords_consumed:\n        continue\n    items[key] = TypedDictEntry(composite.value, required=definitely_provided)"
+NPOS = "(length (positionals a))"
+
+
+class Env(dict):
+    def copy(self):
+        return Env(self)
+
+
+def arm_cond(e, env):
+    """-> Gallina bool, or the Python constants True / False when statically known"""
+    text = ast.unparse(e)
+    if text in FALSE_TESTS:
+        return False
+    if isinstance(e, ast.BoolOp):
+        vals = [arm_cond(v, env) for v in e.values]
+        if isinstance(e.op, ast.And):
+            if any(v is False for v in vals):
+                return False
+            vals = [v for v in vals if v is not True]
+            return True if not vals else vals[0] if len(vals) == 1 else "(" + " && ".join(vals) + ")"
+        if any(v is True for v in vals):
+            return True
+        vals = [v for v in vals if v is not False]
+        return False if not vals else vals[0] if len(vals) == 1 else "(" + " || ".join(vals) + ")"
+    if isinstance(e, ast.UnaryOp) and isinstance(e.op, ast.Not):
+        if _is_name(e.operand, "positionals"):
+            if "vp_count" not in env:
+                _fail(e, "`positionals` tested before the collecting loop")
+            return f"({env['vp_count']} =? 0)"
+        if _is_name(e.operand, "items"):
+            if "items" not in env:
+                _fail(e, "`items` tested before the collecting loop")
+            return f"(is_nil {env['items']})"
+        v = arm_cond(e.operand, env)
+        return (not v) if isinstance(v, bool) else f"(negb {v})"
+    if text == "positional_index < len(actual_args.positionals)":
+        return f"({env['pidx']} <? {NPOS})"
+    if text == "actual_args.star_args is not None":
+        return "(star_args a)"
+    if text == "actual_args.star_kwargs is not None":
+        return "(star_kwargs a)"
+    if text == "param.default is None":
+        return "(negb (pdefault p))"
+    if text == "param.default is not None":
+        return "(pdefault p)"
+    if text == "param.name in actual_args.keywords":
+        return "(kw_mem a p)"
+    if _is_name(e, "definitely_provided"):
+        if "dp" not in env:
+            _fail(e, "definitely_provided read before it is assigned")
+        return env["dp"]
+    return ("?", text)  # unknown: acceptable only if both branches turn out equal
+
+
+def arm_position(e, env):
+    if _is_name(e, "position"):
+        if "position" not in env:
+            _fail(e, "`position` read before it is assigned")
+        return env["position"]
+    if _is_name(e, "positional_index"):
+        return f"(Pos {env['pidx']})"
+    if _attr(e, "param", "name"):
+        return "(Kw (pname p))"
+    if isinstance(e, ast.Name) and e.id in POSITION_CONSTS:
+        return POSITION_CONSTS[e.id]
+    _fail(e, "unsupported Position expression")
+
+
+def leaf(env):
+    if env.get("pos") is None:
+        _fail(None, "an arm finished without binding the parameter")
+    return f"Some (mkG {env['pidx']} {env['kc']} {env['sac']} {env['skc']} {env['eka']}, {env['pos']})"
+
+
+def mk_if(c, t, f):
+    if c is True:
+        return t
+    if c is False:
+        return f
+    if t == f:
+        return t
+    if isinstance(c, tuple):
+        _fail(None, f"a test the translator does not understand decides the outcome: {c[1]}")
+    return f"(if {c} then {t} else {f})"
+
+
+def merge_position(c, t_env, f_env):
+    """join of two environments that differ only in the local `position`"""
+    keys = set(t_env) | set(f_env)
+    out = Env()
+    for k in keys:
+        tv, fv = t_env.get(k), f_env.get(k)
+        if tv == fv:
+            out[k] = tv
+        elif k in ("position", "pos", "sac", "skc", "eka", "pidx", "kc", "dp") and tv is not None and fv is not None:
+            if c is True:
+                out[k] = tv
+            elif c is False:
+                out[k] = fv
+            elif isinstance(c, tuple):
+                _fail(None, f"a test the translator does not understand decides a tracked variable: {c[1]}")
+            else:
+                out[k] = f"(if {c} then {tv} else {fv})"
+        else:
+            out[k] = None if k == "pos" else tv if fv is None else fv if tv is None else None
+            if k not in ("pos",) and tv is not None and fv is not None:
+                _fail(None, f"cannot join the branches for `{k}`")
+    return out
+
+
+def returns(stmts):
+    """does this statement list contain a `return` (at any depth)?"""
+    return any(isinstance(n, ast.Return) for st in stmts for n in ast.walk(st))
+
+
+def exec_block(stmts, env):
+    """Execute statements; returns either ('term', gallina) when every path has
+    returned or fallen off the end of the ARM is decided by the caller, or
+    ('env', env') when control continues after the block."""
+    for k, st in enumerate(stmts):
+        rest = stmts[k + 1 :]
+        if isinstance(st, ast.Return):
+            if st.value is None or (isinstance(st.value, ast.Constant) and st.value.value is None):
+                return ("term", "None")
+            _fail(st, "unexpected return value inside an arm")
+        if isinstance(st, ast.If):
+            c = arm_cond(st.test, env)
+            if not returns([st]):
+                # pure state update on both sides: join and continue
+                rt = exec_block(st.body, env.copy())
+                rf = exec_block(st.orelse, env.copy()) if st.orelse else ("env", env.copy())
+                env = merge_position(c, rt[1], rf[1])
+                continue
+            # some path returns: the rest of the block is duplicated into both branches
+            rt = exec_block(st.body + rest, env.copy())
+            rf = exec_block(st.orelse + rest, env.copy())
+            if rt[0] == "term" and rf[0] == "term":
+                return ("term", mk_if(c, rt[1], rf[1]))
+            tt = rt[1] if rt[0] == "term" else leaf(rt[1])
+            ff = rf[1] if rf[0] == "term" else leaf(rf[1])
+            return ("term", mk_if(c, tt, ff))
+        if isinstance(st, ast.While):
+            if ast.unparse(st) != WHILE_TEMPLATE:
+                _fail(st, "unexpected while loop")
+            env["vp_count"] = f"({NPOS} - {env['pidx']})"
+            env["pidx"] = f"(Nat.max {env['pidx']} {NPOS})"
+            continue
+        if isinstance(st, ast.For):
+            if ast.unparse(st) != FOR_TEMPLATE:
+                _fail(st, "unexpected for loop")
+            env["items"] = f"(unconsumed a {env['kc']})"
+            continue
+        if isinstance(st, ast.AugAssign):
+            if _is_name(st.target, "positional_index") and isinstance(st.op, ast.Add) and isinstance(st.value, ast.Constant) and st.value.value == 1:
+                env["pidx"] = f"(S {env['pidx']})"
+                continue
+            _fail(st, "unsupported augmented assignment")
+        if isinstance(st, ast.Expr) and isinstance(st.value, ast.Call):
+            t = ast.unparse(st.value.func)
+            if t == "keywords_consumed.add" and len(st.value.args) == 1 and _attr(st.value.args[0], "param", "name"):
+                env["kc"] = f"(pname p :: {env['kc']})"
+                continue
+            if t == "self.show_call_error":
+                continue
+            _fail(st, "unsupported call statement")
+        if isinstance(st, ast.Assign) and len(st.targets) == 1:
+            tg = st.targets[0]
+            if isinstance(tg, ast.Name):
+                if tg.id in FLAGS:
+                    if isinstance(st.value, ast.Constant) and st.value.value is True:
+                        env[FLAGS[tg.id]] = "true"
+                        continue
+                    _fail(st, "a consumed-flag is assigned something other than True")
+                if tg.id == "position":
+                    env["position"] = arm_position(st.value, env)
+                    continue
+                if tg.id in VALUE_LOCALS:
+                    continue
+                if tg.id == "positionals" and ast.unparse(st.value) == "[]":
+                    continue
+                if tg.id == "items" and ast.unparse(st.value) == "{}":
+                    continue
+                _fail(st, "assignment to an untracked variable")
+            if isinstance(tg, ast.Tuple) and ast.unparse(tg) == "(definitely_provided, composite)":
+                v = ast.unparse(st.value)
+                if v == "actual_args.positionals[positional_index]":
+                    env["dp"] = f"(nth {env['pidx']} (positionals a) true)"
+                    continue
+                if v == "actual_args.keywords[param.name]":
+                    env["dp"] = "(kw_dp a p)"
+                    continue
+                _fail(st, "unsupported source of definitely_provided")
+            if isinstance(tg, ast.Subscript) and ast.unparse(tg) == "bound_args[param.name]":
+                if not (isinstance(st.value, ast.Tuple) and len(st.value.elts) == 2):
+                    _fail(st, "bound_args entry is not a (position, composite) pair")
+                env["pos"] = arm_position(st.value.elts[0], env)
+                continue
+            _fail(st, "unsupported assignment")
+        if isinstance(st, ast.Assert):
+            continue
+        _fail(st, "unsupported statement in an arm of bind_arguments")
+    return ("env", env)
+
+
+def translate_arms(fn):
+    loops = [st for st in fn.body if isinstance(st, ast.For)]
+    loop = loops[0]
+    if ast.unparse(loop.target) != "param" or ast.unparse(loop.iter) != "self.parameters.values()":
+        _fail(loop, "bind_arguments: expected `for param in self.parameters.values():`")
+    # the initial values of the tracked variables
+    init = {}
+    for st in fn.body[: fn.body.index(loop)]:
+        if isinstance(st, (ast.Assign, ast.AnnAssign)):
+            tg = st.targets[0] if isinstance(st, ast.Assign) else st.target
+            if isinstance(tg, ast.Name):
+                init[tg.id] = ast.unparse(st.value)
+    want = {"positional_index": "0", "keywords_consumed": "set()", "star_args_consumed": "False", "star_kwargs_consumed": "False", "extra_keywords_allowed": "False", "bound_args": "{}"}
+    for k, v in want.items():
+        if init.get(k) != v:
+            raise TranslateError(f"signature.py: bind_arguments initialises {k} to {init.get(k)!r}, the model assumes {v}")
+    if len(loop.body) != 1 or not isinstance(loop.body[0], ast.If):
+        _fail(loop, "bind_arguments: the loop body must be one if/elif chain on param.kind")
+    arms = {}
+    node = loop.body[0]
+    while True:
+        k = _kind_test(node.test)
+        if k is None:
+            _fail(node.test, "loop arm is not selected by `param.kind is ParameterKind.X`")
+        arms[k] = node.body
+        if len(node.orelse) == 1 and isinstance(node.orelse[0], ast.If):
+            node = node.orelse[0]
+        else:
+            if not (len(node.orelse) == 1 and isinstance(node.orelse[0], ast.Assert)):
+                _fail(node, "the kind dispatch must end with `else: assert False`")
+            break
+    out = ["Definition gen_step (a : actuals) (g : gstate) (p : param) : option (gstate * position) :=", "  match pkind p with"]
+    for k, coq in KIND.items():
+        if k not in arms:
+            raise TranslateError(f"signature.py: bind_arguments has no arm for {k}")
+        env = Env(pidx="(g_pidx g)", kc="(g_kc g)", sac="(g_sac g)", skc="(g_skc g)", eka="(g_eka g)", pos=None)
+        r = exec_block(arms[k], env)
+        term = r[1] if r[0] == "term" else leaf(r[1])
+        out.append(f"  | {coq} =>\n      {term}")
+    out.append("  end.\n")
+    return "\n".join(out)
+
 # ---------------------------------------------------------------------------
 
 
@@ -311,13 +586,14 @@ def translate(repo: str) -> str:
         "(* GENERATED by harness/translate/binder.py from pyanalyze/signature.py — do not edit. *)",
         "From Coq Require Import List Bool NArith PeanoNat.",
         "Import ListNotations.",
-        "Require Import PV.Binder.Kind PV.Binder.Sig PV.Binder.Bind PV.Binder.SigAssign.",
+        "Require Import PV.Binder.Kind PV.Binder.Sig PV.Binder.Bind PV.Binder.BindCore PV.Binder.SigAssign.",
         "",
         "(* digests of the pinned regions (statement shape as modelled) *)",
     ]
     for name, cur in shapes.items():
         lines.append(f"(* {name}: {cur['digest']} *)")
-    lines += ["", "(* the four rejecting checks after the loop of Signature.bind_arguments *)", translate_finish(bind)]
+    lines += ["", "(* the five per-kind arms of the loop of Signature.bind_arguments (symbolic execution) *)", translate_arms(bind)]
+    lines += ["(* the four rejecting checks after the loop of Signature.bind_arguments *)", translate_finish(bind)]
     lines += ["(* the loop over their parameters after the comparison loop of Signature.can_assign *)", translate_extra_required(ca)]
     return "\n".join(lines)
 
